@@ -241,6 +241,7 @@ pub fn rand_fault(rng: &mut Rng, horizon: usize) -> FaultPlan {
         2 => FaultKind::Error(ErrKind::Interrupted),
         3 => FaultKind::Error(ErrKind::BrokenPipe),
         4 => FaultKind::Error(ErrKind::Other),
+        5 => FaultKind::Error(ErrKind::WriteZero),
         _ => FaultKind::Error(ErrKind::ConnectionReset),
     };
     FaultPlan { at, kind }
@@ -464,6 +465,18 @@ impl Gen {
                 props.push(Prop::UserProperty(rand_string(rng, 4), rand_string(rng, 4)));
             }
         }
+        let mut filters: Vec<FilterSpec> = filters;
+        // now and then the packet is padded so that its remaining length sits at the one-byte /
+        // two-byte boundary of the length encoding
+        if rng.chance(1, 10) {
+            let pl = 1 + crate::refcodec::props_encoded_len(&props);
+            let rl = 2 + pl + filters.iter().map(|f| 2 + f.filter.len() + 1).sum::<usize>();
+            let target = *rng.pick(&[125usize, 126, 127, 128, 129]);
+            if rl < target {
+                let pad = "p".repeat(target - rl);
+                filters[0].filter = format!("{}{}", pad, filters[0].filter);
+            }
+        }
         SubSpec { filters, props, cancel_at }
     }
 
@@ -476,6 +489,15 @@ impl Gen {
         if rng.chance(self.p.props_pct, 100) {
             for _ in 0..rng.range(1, 2) {
                 props.push(Prop::UserProperty(rand_string(rng, 4), rand_string(rng, 4)));
+            }
+        }
+        let mut filters: Vec<String> = filters;
+        if rng.chance(1, 10) {
+            let pl = 1 + crate::refcodec::props_encoded_len(&props);
+            let rl = 2 + pl + filters.iter().map(|f| 2 + f.len()).sum::<usize>();
+            let target = *rng.pick(&[125usize, 126, 127, 128, 129]);
+            if rl < target {
+                filters[0] = format!("{}{}", "p".repeat(target - rl), filters[0]);
             }
         }
         UnsubSpec { filters, props, cancel_at }
@@ -601,7 +623,8 @@ impl Gen {
                 let cancel_at = self.cancel();
                 let rng = &mut self.rng;
                 // plain, with a reason code, with properties (the builder then fills in the reason), or both
-                let props = match rng.below(6) {
+                let props = match rng.below(7) {
+                    6 => Some(vec![Prop::ServerReference(rand_string(rng, 6)), Prop::ReasonString(rand_string(rng, 3))]),
                     0 => Some(vec![Prop::ReasonString(rand_string(rng, 6))]),
                     1 => Some(vec![Prop::UserProperty(rand_string(rng, 3), rand_string(rng, 3))]),
                     2 => Some(vec![]),
